@@ -209,7 +209,7 @@ Proof.
   - destruct (append_bytes_spec s0 a d HI0) as [W1 W2]. rewrite He0 in W2. auto.
   - destruct (append_cstr_spec s0 a d HI0) as [W1 W2]. rewrite He0 in W2. auto.
   - destruct (append_fill_spec s0 a n c HI0 Hok) as [W1 W2]. rewrite He0 in W2. auto.
-  - destruct Hok as [Hu Hp]. unfold append_num. rewrite (num_text_piece u p Hu Hp).
+  - unfold append_num. rewrite (num_text_piece u p Hok).
     destruct (append_bytes_spec s0 a (num_piece u p) HI0) as [W1 W2]. rewrite He0 in W2. auto.
   - pose proof (append_format_spec s0 a pre body HI0) as W. cbv zeta in W. destruct W as [W1 W2].
     rewrite He0 in W2. cbn [orb] in W2.
